@@ -99,6 +99,18 @@ class Mut(ast.NodeTransformer):
             node.test = ast.BoolOp(op=ast.Or() if exits else ast.And(),
                                    values=[node.test, extra])
             return node
+        if self.kind == 'widen' and self._hit():
+            # the code guarded by this `if` is reached in MORE situations
+            # (a check is skipped / a branch is taken without its reason)
+            exits = node.body and isinstance(
+                node.body[-1], (ast.Return, ast.Raise, ast.Continue,
+                                ast.Break)) and not node.orelse
+            extra = ast.Name(id='widening_flag', ctx=ast.Load())
+            self.desc = 'widen: if %s %s widening_flag' % (
+                ast.unparse(node.test)[:50], 'and' if exits else 'or')
+            node.test = ast.BoolOp(op=ast.And() if exits else ast.Or(),
+                                   values=[node.test, extra])
+            return node
         if self.kind == 'negate-if' and self._hit():
             self.desc = 'negate: if %s' % ast.unparse(node.test)[:60]
             node.test = ast.UnaryOp(op=ast.Not(), operand=node.test)
@@ -176,7 +188,7 @@ class Mut(ast.NodeTransformer):
 
 
 KINDS = ('drop-guard', 'negate-if', 'drop-call', 'flip-compare',
-         'swap-state', 'swap-pred')
+         'swap-state', 'swap-pred', 'narrow', 'widen')
 
 
 def mutants_of(prog, q):
